@@ -49,7 +49,7 @@ Section Other.
                | _ => fold_opt (fun c x =>
                         match x with
                         | RInline on sub => rec1 c sub nid v (prefix ++ "On" ++ camel on)%string
-                        | RSpread n => Some (push_field c nid (R None (snake n) n [QRequired] true None (recursive frs n)))
+                        | RSpread n => Some (push_field c nid (R None (kw (snake n)) n [QRequired] true None (recursive frs n)))
                         | _ => Some c
                         end) mine c2
                end
@@ -61,11 +61,11 @@ Section Other.
         assert (Hfold : forall c2 nid,
           fold_opt (fun c x => match x with
                      | RInline on sub => rec2 c sub nid v (prefix ++ "On" ++ camel on)%string
-                     | RSpread n => Some (push_field c nid (R None (snake n) n [QRequired] true None (recursive frs n)))
+                     | RSpread n => Some (push_field c nid (R None (kw (snake n)) n [QRequired] true None (recursive frs n)))
                      | _ => Some c end) mine (cstrip c2) =
           option_map cstrip (fold_opt (fun c x => match x with
                      | RInline on sub => rec1 c sub nid v (prefix ++ "On" ++ camel on)%string
-                     | RSpread n => Some (push_field c nid (R None (snake n) n [QRequired] true None (recursive frs n)))
+                     | RSpread n => Some (push_field c nid (R None (kw (snake n)) n [QRequired] true None (recursive frs n)))
                      | _ => Some c end) mine c2)).
         { intros c2 nid. apply fold_opt_cstrip. intros c1 x _. destruct x as [a fd sub|on sub|n|]; try reflexivity. apply Hrec. }
         change (push_variant (cstrip c0) sid (mkVariant v None (Some (RNamed (prefix ++ "On" ++ v))) false))
